@@ -46,7 +46,7 @@ func init() {
 	checks["C18"] = handCheck("C18", []string{
 		"rapid: a value drawn from XRange(lo, hi) lies in [lo, hi]; rapid.String() is valid UTF-8; a failed assert aborts the run (trusted)",
 		"'accepted by the reference marshaller / round-trips' is protobuf-go's behaviour on valid values; Any: typeURL is the resolver's own answer and value = Marshal(New()) by construction of genAny (not re-verified)",
-		"not covered: genAny with a nil field descriptor (top-level Any message), the FieldMaps and DisallowNilMessages/NoEmptyLists options beyond the recursion measure",
+		"not covered: the FieldMaps and DisallowNilMessages/NoEmptyLists options beyond the recursion measure",
 	})
 	checks["C17"] = handCheck("C17", []string{
 		"machine arithmetic is modelled exactly as mathematical integers with explicit wrap-around (mod 2^64 / 2^32)",
